@@ -531,7 +531,34 @@ func init() {
 			mw := c.MustFn("mergeToWriter")
 			key = "mergeToWriter/zero-survivor-tables"
 			found := false
+			// the tables may be built in mergeToWriter itself or in a helper whose result becomes the returned map
+			cands := []*ssa.Function{mw}
 			for _, b := range mw.Blocks {
+				if ret, ok := b.Instrs[len(b.Instrs)-1].(*ssa.Return); ok {
+					var walk func(v ssa.Value, d int)
+					walk = func(v ssa.Value, d int) {
+						if d > 4 {
+							return
+						}
+						switch x := v.(type) {
+						case *ssa.Phi:
+							for _, e := range x.Edges {
+								walk(e, d+1)
+							}
+						case *ssa.Call:
+							if sc := x.Call.StaticCallee(); sc != nil && c.inRoot(sc) && fnName(sc) != "mergeStoredAndRemap" {
+								cands = append(cands, sc)
+							}
+						}
+					}
+					walk(resolveLoad(ret.Results[0]), 0)
+				}
+			}
+			var blocks []*ssa.BasicBlock
+			for _, f := range cands {
+				blocks = append(blocks, f.Blocks...)
+			}
+			for _, b := range blocks {
 				for _, ins := range b.Instrs {
 					mk, ok := ins.(*ssa.MakeSlice)
 					if !ok {
